@@ -79,6 +79,8 @@ func (r *c05Relay) UnblindProposal(ctx context.Context, opts *builderapi.Unblind
 		return nil, errors.New("POST failed with status 500: relay unavailable")
 	case "status400":
 		return nil, errors.New("POST failed with status 400: bad request")
+	case "err503":
+		return nil, errors.New("POST failed with status 503: service unavailable")
 	case "nildata":
 		return &builderapi.Response[*api.VersionedSignedProposal]{Data: nil, Metadata: map[string]any{}}, nil
 	}
@@ -294,7 +296,7 @@ func c05Units(tier string) []hx.Unit {
 	combos := []c05Combo{{spec.DataVersionPhase0, false}, {spec.DataVersionAltair, false}, {spec.DataVersionBellatrix, false}, {spec.DataVersionCapella, false}, {spec.DataVersionDeneb, false},
 		{spec.DataVersionBellatrix, true}, {spec.DataVersionCapella, true}, {spec.DataVersionDeneb, true}}
 	auctions := []string{"none", "error", "nowinner", "winner1", "winner2"}
-	relayBeh := []string{"full", "err3", "status400", "nildata", "never"}
+	relayBeh := []string{"full", "err3", "status400", "err503", "nildata", "never"}
 	var units []hx.Unit
 	for _, cb := range combos {
 		for _, au := range auctions {
@@ -598,7 +600,7 @@ func init() {
 	hx.Register(&hx.Prop{
 		ID:    "C05",
 		Title: "A proposal signs only the selected block of the duty slot and submits it intact",
-		Rule: "real Prepare + Propose of the block proposer for every block version (phase0..deneb) x blinded (bellatrix+) x proposal slot {duty, duty+1} x graffiti {ok, error, no provider} x auction {no auctioneer, error, no winner, winner with 1 or 2 providers} x signing {ok, error} x submission {ok, error} x (bellatrix+) execution payload {present, null: the block cannot be hashed and nothing may be signed} x unblind-from-all x per-relay unblinding behaviour {full block at 0s/1s, three errors, status 400, empty response, never}; relay goroutines explored with deviation-bounded schedules (quick 1, thorough 2); " +
+		Rule: "real Prepare + Propose of the block proposer for every block version (phase0..deneb) x blinded (bellatrix+) x proposal slot {duty, duty+1} x graffiti {ok, error, no provider} x auction {no auctioneer, error, no winner, winner with 1 or 2 providers} x signing {ok, error} x submission {ok, error} x (bellatrix+) execution payload {present, null: the block cannot be hashed and nothing may be signed} x unblind-from-all x per-relay unblinding behaviour {full block at 0s/1s, three errors (status 500 or 503), status 400, empty response, never}; relay goroutines explored with deviation-bounded schedules (quick 1, thorough 2); " +
 			"oracle on every signer, relay and submitter call; non-trivial = blinded, other-slot proposal, or a failing graffiti/auction/signing step; distinct = distinct (blinded, signatures, submissions)",
 		Assumptions: []string{
 			"apart from the null execution payload the proposal provider returns well-formed blocks (other malformed ones are C16)",
